@@ -56,22 +56,29 @@ class NativeTimeout(Exception):
 
 class time_limit:
     """with time_limit(5): ...   raises NativeTimeout in the main thread when the block runs too long
-    (mutated code may not terminate; a replay must never hang the check)"""
+    (mutated code may not terminate; a replay must never hang the check).  Library code under test may have
+    `except Exception` handlers that swallow or convert the alarm (networkx turns it into NetworkXError): the timer
+    therefore keeps firing every second, and whatever exception leaves the block after the alarm fired is
+    replaced by NativeTimeout."""
 
     def __init__(self, seconds):
         self.seconds = seconds
+        self.fired = False
 
     def _handler(self, signum, frame):
+        self.fired = True
         raise NativeTimeout('no result within %.1f s' % self.seconds)
 
     def __enter__(self):
         import signal
         self._old = signal.signal(signal.SIGALRM, self._handler)
-        signal.setitimer(signal.ITIMER_REAL, self.seconds)
+        signal.setitimer(signal.ITIMER_REAL, self.seconds, 1.0)
         return self
 
-    def __exit__(self, *exc):
+    def __exit__(self, et, ev, tb):
         import signal
         signal.setitimer(signal.ITIMER_REAL, 0)
         signal.signal(signal.SIGALRM, self._old)
+        if self.fired and not (et is not None and issubclass(et, NativeTimeout)):
+            raise NativeTimeout('no result within %.1f s' % self.seconds)
         return False
